@@ -189,10 +189,10 @@ Lemma recover_durable : forall c s,
   (exists st, recover c s = Panic st /\ cat_site st).
 Proof.
   intros c s ND HR [a [k HK]]. unfold recover. fold (cursor_of s). fold (kept s).
-  destruct (restore_tables_gen (c_seed c) (tabs s) ND HR) as [l0 [E0 [ND0 H0]]]. rewrite E0. cbn [bind].
-  destruct (create_if_empty (c_seed c) s_meta_tables l0) as [l1 b1] eqn:E1.
+  destruct (restore_tables_gen code_seed (tabs s) ND HR) as [l0 [E0 [ND0 H0]]]. rewrite E0. cbn [bind].
+  destruct (create_if_empty code_seed s_meta_tables l0) as [l1 b1] eqn:E1.
   pose proof (grows_view _ _ (grows_create _ _ _ _ _ E1)) as GV1.
-  destruct (replay_shape (c_seed c) (kept s) None l1) as [[l2 E2]|[st E2]]; rewrite E2; cbn [bind].
+  destruct (replay_shape code_seed (kept s) None l1) as [[l2 E2]|[st E2]]; rewrite E2; cbn [bind].
   - left. eexists. split; [reflexivity|]. intro n. rewrite content_view. cbn [tabs].
     destruct (replay_spec _ _ _ _ _ E2) as [_ A2]. destruct (H0 n) as [Hp [Hb Hf]].
     destruct (modc_fields _ _ (GV1 n)) as [Fb [Ff [Fp _]]].
@@ -201,6 +201,23 @@ Proof.
   - right. exists st. split; auto.
     destruct (replay_panic _ _ _ _ _ E2) as [->|H]; auto.
     exfalso. eapply replay_contiguous; [exact HK|left; reflexivity|exact E2].
+Qed.
+
+(* with nothing to replay no catalogue look-up is made *)
+Lemma recover_durable_nolog : forall c s,
+  NoDup (keys (tabs s)) ->
+  (forall n t, lookup n (tabs s) = Some t -> exists ps, restore_parts (t_meta t) (t_files t) = Some ps) ->
+  kept s = [] ->
+  exists s', recover c s = Val s' /\ forall n, content s' n = durable_part_rows (view (tabs s) n).
+Proof.
+  intros c s ND HR K.
+  destruct (recover_durable c s ND HR) as [[s' [R C]]|[st [P _]]].
+  - rewrite K. exists 0, 0%nat. reflexivity.
+  - exists s'. split; auto. intro n. rewrite C, durable_wal_rows_kept, K. unfold wal_rows. cbn [flat_map].
+    apply app_nil_r.
+  - exfalso. revert P. unfold recover. fold (cursor_of s). fold (kept s). rewrite K.
+    destruct (restore_tables_gen code_seed (tabs s) ND HR) as [l0 [E0 _]]. rewrite E0. cbn [bind].
+    destruct (create_if_empty code_seed s_meta_tables l0) as [l1 b1]. cbn [replay bind]. discriminate.
 Qed.
 
 (* a state at rest satisfies the premises *)
